@@ -43,6 +43,11 @@ package metrics
 //@      && (forall k1 string :: forall k2 string :: {mc.metrics.BackendMetrics[k1], mc.metrics.BackendMetrics[k2]}
 //@        has(mc.metrics.BackendMetrics, k1) && has(mc.metrics.BackendMetrics, k2) && k1 != k2 ==> mc.metrics.BackendMetrics[k1] != mc.metrics.BackendMetrics[k2])
 
+// two-state: every backend keeps its metrics cell (cells are never replaced or dropped by health updates)
+//@ pred bmKept(mc *MetricsCollector) := (forall k string :: {mc.metrics.BackendMetrics[k]} old(has(mc.metrics.BackendMetrics, k)) ==>
+//@        has(mc.metrics.BackendMetrics, k) && mc.metrics.BackendMetrics[k] == old(mc.metrics.BackendMetrics[k]))
+//@      && len(mc.metrics.BackendMetrics) >= old(len(mc.metrics.BackendMetrics))
+
 //@ func (*MetricsCollector).RecordBackendRequest
 //@   props C13 C12
 //@   requires mcOK(mc) && unlocked(mc.metrics.mutex) && bmCellsOK(mc)
@@ -60,6 +65,7 @@ package metrics
 //@   requires mcOK(mc) && unlocked(mc.metrics.mutex) && bmCellsOK(mc)
 //@   ensures cells: bmCellsOK(mc)
 //@   ensures mirror: has(mc.metrics.BackendMetrics, backendName) && mc.metrics.BackendMetrics[backendName].IsHealthy == isHealthy
+//@   ensures seq: cells_stay: bmKept(mc)
 //@   ensures others: forall k string :: {mc.metrics.BackendMetrics[k]} k != backendName && old(has(mc.metrics.BackendMetrics, k)) ==>
 //@             has(mc.metrics.BackendMetrics, k) && mc.metrics.BackendMetrics[k] == old(mc.metrics.BackendMetrics[k])
 //@             && mc.metrics.BackendMetrics[k].IsHealthy == old(mc.metrics.BackendMetrics[k].IsHealthy)
@@ -70,6 +76,8 @@ package metrics
 //@   requires mcOK(mc) && unlocked(mc.metrics.mutex) && bmCellsOK(mc)
 //@   ensures cells: bmCellsOK(mc)
 //@   ensures gauge: has(mc.metrics.BackendMetrics, backendName) && mc.metrics.BackendMetrics[backendName].ActiveConnections == connections
+//@   ensures cells_stay: bmKept(mc)
+//@   ensures known_backend_adds_no_cell: old(has(mc.metrics.BackendMetrics, backendName)) ==> len(mc.metrics.BackendMetrics) == old(len(mc.metrics.BackendMetrics))
 //@   modifies mapof(mc.metrics.BackendMetrics), BackendMetrics.ActiveConnections
 //@ pred has_bm(mc *MetricsCollector, name string) := has(mc.metrics.BackendMetrics, name)
 
